@@ -44,7 +44,7 @@ def cases(draw):
     c = {"kind": kind, "src": src, "opts": opts}
     if src == "broad":
         b = draw(broad_cases(max_len=10))
-        c.update({"listing": b["listing"], "pattern": b["pattern"], "shipped": b["macros"], "cont": b["cont"]})
+        c.update({"listing": b["listing"], "pattern": b["pattern"], "shipped": b["macros"], "cont": b["cont"], "flags": b["flags"]})
     elif src == "macro-files":
         L, pattern = draw(base_rule())
         factored, macros, kinds = factor(draw, pattern)
@@ -118,7 +118,8 @@ def evaluate(case):
         mns = [m for m in mns if m.isalpha()]
         pattern = [mns[case["pick"] % len(mns)]] if mns else ["ret"]
         ev.tags.append("binary")
-    doc = jasm_io.make_doc(pattern, macros=doc_macros)
+    mn_full, op_full = case.get("flags", [False, False])
+    doc = jasm_io.make_doc(pattern, mn_full or None, op_full or None, macros=doc_macros)
     rule_path = sc.write("c20_rule.yaml", jasm_io.rule_text(doc))
     if kind == "failing":
         f = case["failure"]
